@@ -540,6 +540,42 @@ fn aux_case(r: &mut Rng, variant: u64, h: u64, parent_has_tls: bool) -> Case {
     }
 }
 
+/// Cases that do not care about the connection phase all carry the same handshake response. What
+/// a client announces there besides its name - capability bits (offered by the server or not),
+/// the largest packet it is willing to take, its connection character set, the reserved bytes - must
+/// not change how its commands are served, so half of those cases (chosen by their own input) get
+/// other values in these fixed-width fields. Lengths and offsets stay as they are.
+fn vary_default_handshake(case: &Case, input: &mut [u8]) {
+    if case.raw_input.is_some() || case.handshake != default_handshake() || input.len() < 4 + 32 {
+        return;
+    }
+    let h = hash128(&input[..]).0 ^ 0x2545_F491_4F6C_DD1D;
+    if h % 2 == 0 {
+        return;
+    }
+    let mut r = Rng::for_case(h, "default-handshake", 0);
+    let typical = 0x0000_a685u32 | 0x203f_0000;
+    let caps = match r.below(5) {
+        0 => 0xFFFF_FFFF,
+        1 => typical | 0x0100_0000 | 0x0800_0000 | 0x0080_0000, // DEPRECATE_EOF, QUERY_ATTRIBUTES, SESSION_TRACK announced
+        2 => r.next() as u32,
+        3 => wire::CLIENT_PROTOCOL_41,
+        _ => typical,
+    };
+    let caps = (caps | wire::CLIENT_PROTOCOL_41) & !wire::CLIENT_SSL;
+    let mp = *r.pick(&[0u32, 1024, 4096, 16_384, 65_536, 1 << 20, 1 << 24, 1 << 30, u32::MAX]);
+    let cs = *r.pick(&[0x21u8, 8, 8, 45, 63, 255, 0, 5]);
+    let p = &mut input[4..];
+    p[0..4].copy_from_slice(&caps.to_le_bytes());
+    p[4..8].copy_from_slice(&mp.to_le_bytes());
+    p[8] = cs;
+    if r.chance(1, 4) {
+        for b in p[9..32].iter_mut() {
+            *b = r.below(256) as u8;
+        }
+    }
+}
+
 pub fn run_case(case: &Case) -> Obs {
     run_predecessors(case);
     if case.over_tls {
@@ -547,7 +583,8 @@ pub fn run_case(case: &Case) -> Obs {
             return o;
         }
     }
-    let (input, ends) = case.input();
+    let (mut input, ends) = case.input();
+    vary_default_handshake(case, &mut input);
     let kinds = case.kinds();
     let mut world = World::new(input);
     world.sched = case.sched.clone();
